@@ -151,3 +151,292 @@ Contract(target=f'{CH}::LegPipe.conj', props=['C03', 'C06'], name='LegPipe.conj[
              # ... and the inner pipe of self is left alone
              'self.legs[0].legs[0].qconj == old(self.legs[0].legs[0].qconj) and self.legs[0].legs[1].qconj == old(self.legs[0].legs[1].qconj)',
              'self.legs[0].q_map == old(self.legs[0].q_map) and self.legs[0].nlegs == old(self.legs[0].nlegs)'])
+
+
+# ---------------------------------------------------------------------------------------------------------------
+# C02 / C06: LegCharge.bunch - merge neighbouring blocks of equal charge.  Charges are one opaque value per block here (a row of the
+# charge matrix); `_find_row_differences` enters with the contract that is *proved* for the compiled kernel in c_pyx.py (strictly
+# ascending, first 0, last = number of rows, contains exactly the places where a row differs from its predecessor).
+# Clauses: block b of the result starts where block idx[b] of `self` started and carries its charge; every block of `self` lies
+# inside a result block with the same charge (so every index keeps its charge - C06); neighbouring result blocks differ in charge
+# (the flag `bunched` that is set is true - C02); `sorted` is inherited (merging equal neighbours cannot unsort); `self` is untouched
+# and the result is a new object unless nothing is to be done (C03).
+from pyvc.contract import NpArr as _NpArr2, Const
+from pyvc.values import SArr as _SArr, fresh_int as _fresh_int
+
+
+def _frd(I, *args, **kwargs):
+    """assumed contract of _find_row_differences(charges) for a 1-D array of opaque rows"""
+    ch = args[-1] if args else kwargs.get('qflat')
+    n = to_z3(ch.n)
+    idx = _SArr.fresh('int', 'rowdiff')
+    idx.np = True
+    m = to_z3(idx.n)
+    a, c = idx.leaves[0], ch.leaves[0]
+    k, j = z3.Int('k!frd'), z3.Int('j!frd')
+    I.assume(z3.And(m >= 1, z3.Select(a, 0) == 0, z3.Select(a, m - 1) == n, m <= n + 1))
+    I.assume(z3.ForAll([k], z3.Implies(z3.And(0 <= k, k < m - 1), z3.Select(a, k) < z3.Select(a, k + 1))))
+    I.assume(z3.ForAll([k], z3.Implies(z3.And(1 <= k, k < m - 1), z3.And(1 <= z3.Select(a, k), z3.Select(a, k) < n))))
+    # i in idx (0 < i < n)  <=>  row i differs from row i - 1
+    I.assume(z3.ForAll([k], z3.Implies(z3.And(1 <= k, k < m - 1), z3.Select(c, z3.Select(a, k)) != z3.Select(c, z3.Select(a, k) - 1))))
+    # between two listed places the rows do not change (the proved contract says: every place of change is listed; with the strictly
+    # ascending order that is "no change strictly between two neighbouring entries") - stated in the closed form "each run is constant",
+    # which follows from the adjacent form by induction over the run (the solver does no induction)
+    I.assume(z3.ForAll([k, j], z3.Implies(z3.And(0 <= k, k < m - 1, z3.Select(a, k) <= j, j < z3.Select(a, k + 1)), z3.Select(c, j) == z3.Select(c, z3.Select(a, k)))))
+    I.trusted.add('_find_row_differences: contract proved for the compiled kernel (c_pyx.py), assumed for the implementation in use')
+    return idx
+
+
+
+def _hunt_bunch():
+    """witness on real legs: small charge sequences with repeated neighbours"""
+    import itertools
+    import numpy as np
+    from tenpy.linalg import charges
+    ci = charges.ChargeInfo([1])
+    for n in (1, 2, 3, 4):
+        for qs in itertools.product([0, 1], repeat=n):
+            for sizes in ([1] * n, list(range(1, n + 1))):
+                slices = np.concatenate([[0], np.cumsum(sizes)])
+                leg = charges.LegCharge(ci, slices, np.array(qs).reshape(n, 1), 1)
+                before = (leg.slices.copy(), leg.charges.copy(), leg.sorted, leg.bunched, leg.qconj)
+                idx, b = leg.bunch()
+                ok = np.array_equal(leg.to_qflat(), b.to_qflat()) and b.ind_len == leg.ind_len and b.qconj == leg.qconj
+                ok = ok and all(np.any(b.charges[k] != b.charges[k - 1]) for k in range(1, b.block_number)) and b.bunched
+                ok = ok and np.array_equal(b.slices, leg.slices[idx]) and len(idx) == b.block_number + 1
+                ok = ok and np.array_equal(before[0], leg.slices) and np.array_equal(before[1], leg.charges) and before[2:] == (leg.sorted, leg.bunched, leg.qconj)
+                try:
+                    b.test_sanity()
+                except Exception as e:
+                    ok = False
+                if not ok:
+                    return {'input': {'charges': list(qs), 'block sizes': list(sizes)},
+                            'observed': f'bunch() -> idx {np.asarray(idx).tolist()}, slices {b.slices.tolist()}, charges {b.charges.ravel().tolist()}, flags sorted={b.sorted} bunched={b.bunched}'}
+    return None
+
+
+_BLEG = Obj('LegCharge', CH, {'ind_len': Int(), 'block_number': Int(), 'chinfo': _CHINFO, 'slices': _NpArr2('int'), 'charges': _NpArr2('U'),
+                              'qconj': OneOf(1, -1), 'sorted': Bool(), 'bunched': Bool()})
+_B_INV = ['self.block_number >= 1 and len(self.charges) == self.block_number and len(self.slices) == self.block_number + 1',
+          'self.slices[0] == 0 and self.slices[self.block_number] == self.ind_len',
+          'forall(0, self.block_number, lambda b: self.slices[b] < self.slices[b + 1])',
+          # the flag, if set, is true (C02: claims are truthful on entry)
+          'implies(self.bunched, forall(1, self.block_number, lambda b: self.charges[b] != self.charges[b - 1]))']
+_B_FRAME = ['self.ind_len == old(self.ind_len) and self.block_number == old(self.block_number) and self.qconj == old(self.qconj)',
+            'self.sorted == old(self.sorted) and self.bunched == old(self.bunched)',
+            'len(self.slices) == old(len(self.slices)) and forall(0, len(self.slices), lambda k: self.slices[k] == old(self.slices)[k])',
+            'len(self.charges) == old(len(self.charges)) and forall(0, len(self.charges), lambda k: self.charges[k] == old(self.charges)[k])']
+
+Contract(
+    target=f'{CH}::LegCharge.bunch', props=['C02', 'C06', 'C03'], params={'self': _BLEG}, setup=_setup, hunt=_hunt_bunch,
+    hooks=dict(_HOOKS, **{f'{CH}::_find_row_differences': lambda I, f, a, k: _frd(I, *a, **k), 'global:_find_row_differences': _frd}),
+    requires=_B_INV,
+    ensures=_B_FRAME + [
+        'implies(old(self.bunched), result[1] is self and len(result[0]) == self.block_number + 1 and forall(0, self.block_number + 1, lambda k: result[0][k] == k))',
+        'implies(not old(self.bunched), not (result[1] is self))',
+        # the new leg: same index range, same direction, blocks = maximal runs of equal charge
+        'result[1].ind_len == self.ind_len and result[1].qconj == self.qconj and result[1].chinfo is self.chinfo',
+        'result[1].block_number == len(result[0]) - 1 and len(result[1].charges) == result[1].block_number and len(result[1].slices) == result[1].block_number + 1',
+        'forall(0, result[1].block_number, lambda b: 0 <= result[0][b] < self.block_number and result[1].slices[b] == self.slices[result[0][b]] '
+        'and result[1].charges[b] == self.charges[result[0][b]])',
+        'result[1].slices[result[1].block_number] == self.ind_len',
+        # every old block keeps its charge: it lies in the new block that starts at the last idx entry <= its number
+        'forall(0, result[1].block_number, lambda b: forall(result[0][b], result[0][b + 1], lambda o: self.charges[o] == result[1].charges[b]))',
+        # truthful flags
+        'result[1].bunched == True and forall(1, result[1].block_number, lambda b: result[1].charges[b] != result[1].charges[b - 1])',
+        'result[1].sorted == self.sorted'],
+)
+
+
+# ---------------------------------------------------------------------------------------------------------------
+# C06 / C03: LegCharge.extend(extra) - append the blocks of another leg.  Charges again one opaque row per block.  Clauses: the blocks
+# of `self` come first, unchanged; block k of `extra` follows at offset ind_len with its sizes, and with the charge that denotes the
+# same physical charge in the direction of `self` (kept if the directions agree, negated-and-reduced otherwise) - so every index
+# keeps its charge; direction of `self`; both operands untouched, result new.
+def _zeros(I, shape, dtype=None, **kw):
+    from pyvc import builtins_model as _bm
+    if isinstance(shape, tuple) and len(shape) == 2:
+        I.trusted.add('np.zeros((n, q)): n rows, all equal to the zero row')
+        k = z3.Int('k!z')
+        return _SArr(shape[0], [z3.K(z3.IntSort(), z3.Const('zero_row', U))], 'U', True)
+    return _bm.np_zeros(I, shape, dtype, **kw)
+
+
+def _make_valid_rows(I, f, args, kwargs):
+    x = args[0] if args else kwargs.get('charges')
+    tag = to_z3(f.self_obj.attrs['tag'], U)
+    if isinstance(x, _SArr):
+        k = z3.Int('k!mv')
+        return _SArr(x.n, [z3.Lambda([k], _MV(tag, z3.Select(x.leaves[0], k)))], 'U', True)
+    return Opq(_MV(tag, to_z3(x, U)))
+
+
+def _hunt_extend():
+    import itertools
+    import numpy as np
+    from tenpy.linalg import charges
+    for mod in (1, 3):
+        ci = charges.ChargeInfo([mod])
+        for qa, qb in itertools.product([1, -1], repeat=2):
+            a = charges.LegCharge(ci, [0, 1, 3], [[1], [2]], qa)
+            b = charges.LegCharge(ci, [0, 2, 3, 4], [[2], [0], [1]], qb)
+            fa, fb = (a.slices.copy(), a.charges.copy(), a.qconj), (b.slices.copy(), b.charges.copy(), b.qconj)
+            r = a.extend(b)
+            phys = lambda leg: ci.make_valid(leg.qconj * leg.to_qflat())
+            ok = r.qconj == qa and r.ind_len == 7 and np.array_equal(phys(r), np.concatenate([phys(a), phys(b)]))
+            ok = ok and np.array_equal(r.slices, [0, 1, 3, 5, 6, 7])
+            ok = ok and all(np.array_equal(x, y) for x, y in zip(fa[:2], (a.slices, a.charges))) and all(np.array_equal(x, y) for x, y in zip(fb[:2], (b.slices, b.charges)))
+            if not ok:
+                return {'input': {'mod': mod, 'self': {'slices': [0, 1, 3], 'charges': [1, 2], 'qconj': qa},
+                                  'extra': {'slices': [0, 2, 3, 4], 'charges': [2, 0, 1], 'qconj': qb}},
+                        'observed': f'extend -> slices {r.slices.tolist()}, charges {r.charges.ravel().tolist()}, qconj {r.qconj}: '
+                                    f'physical charges {phys(r).ravel().tolist()} vs {np.concatenate([phys(a), phys(b)]).ravel().tolist()}'}
+    return None
+
+
+def _ext_setup(I, env):
+    env['extra'].attrs['chinfo'] = env['self'].attrs['chinfo']          # legs of one tensor network share the ChargeInfo object
+    _setup(I, env)
+    I.ghost['__env__']['mvrow'] = Builtin(lambda I2, ch, x: Opq(_MV(to_z3(ch.attrs['tag'], U), to_z3(x, U))), 'mvrow')
+
+
+_XLEG = lambda: Obj('LegCharge', CH, {'ind_len': Int(), 'block_number': Int(), 'chinfo': _CHINFO, 'slices': _NpArr2('int'), 'charges': _NpArr2('U'),
+                                      'qconj': OneOf(1, -1), 'sorted': Bool(), 'bunched': Bool()})
+_X_INV = lambda o: [f'{o}.block_number >= 1 and len({o}.charges) == {o}.block_number and len({o}.slices) == {o}.block_number + 1',
+                    f'{o}.slices[0] == 0 and {o}.slices[{o}.block_number] == {o}.ind_len']
+_X_FRAME = lambda o: [f'{o}.ind_len == old({o}.ind_len) and {o}.block_number == old({o}.block_number) and {o}.qconj == old({o}.qconj)',
+                      f'len({o}.slices) == old(len({o}.slices)) and forall(0, len({o}.slices), lambda k: {o}.slices[k] == old({o}.slices)[k])',
+                      f'len({o}.charges) == old(len({o}.charges)) and forall(0, len({o}.charges), lambda k: {o}.charges[k] == old({o}.charges)[k])']
+
+Contract(
+    target=f'{CH}::LegCharge.extend', props=['C06', 'C03'], name='LegCharge.extend[leg]', setup=_ext_setup, hunt=_hunt_extend,
+    params={'self': _XLEG(), 'extra': _XLEG()},
+    hooks={f'{CH}::ChargeInfo.make_valid': _make_valid_rows, f'{CH}::LegCharge.test_sanity': lambda I, f, a, k: None,
+           'module:numpy.zeros': _zeros},
+    requires=_X_INV('self') + _X_INV('extra') + ['extra.chinfo is self.chinfo'],
+    ensures=_X_FRAME('self') + _X_FRAME('extra') + [
+        'not (result is self) and not (result is extra)',
+        'result.qconj == self.qconj and result.chinfo is self.chinfo',
+        'result.block_number == self.block_number + extra.block_number and result.ind_len == self.ind_len + extra.ind_len',
+        'len(result.slices) == result.block_number + 1 and len(result.charges) == result.block_number',
+        'forall(0, self.block_number + 1, lambda k: result.slices[k] == self.slices[k])',
+        'forall(0, extra.block_number + 1, lambda k: result.slices[self.block_number + k] == extra.slices[k] + self.ind_len)',
+        'forall(0, self.block_number, lambda k: result.charges[k] == self.charges[k])',
+        # the appended blocks denote the same physical charges, written in the direction of self
+        'forall(0, extra.block_number, lambda k: result.charges[self.block_number + k] == '
+        'ite(self.qconj == extra.qconj, extra.charges[k], mvrow(self.chinfo, neg(extra.charges[k]))))'],
+)
+
+
+# ---------------------------------------------------------------------------------------------------------------
+# C02 / C06: LegCharge.sort(bunch) - reorder the blocks by charge.  `lexsort(charges.T)` is assumed to return a permutation `perm` of
+# the block numbers for which charges[perm] is ordered (ghost order `row_le` on opaque rows: a total preorder; "sorted" means
+# row_le(c[k-1], c[k]) for all k - the assumed contract of LegCharge.is_sorted / np.lexsort; stability is not needed here).
+# np.cumsum enters by its recurrence, np.append([0], a) by its element map.
+# Clauses: block k of the result is block perm[k] of self - same charge, same size (so every index keeps its charge, C06); the
+# claim `sorted` that is set is true; `bunched` is dropped unless bunch=True, then the clauses of bunch() hold for the sorted leg;
+# self untouched; nothing to do when the flags already say so.
+_LE = z3.Function('row_le', U, U, z3.BoolSort())
+
+
+def _lexsort(I, *args, **kwargs):
+    ch = args[0]                      # charges.T of an array of opaque rows: the hook of `.T` below passes the rows through
+    n = to_z3(ch.n)
+    perm = _SArr.fresh('int', 'lexperm')
+    perm.np = True
+    I.assume(to_z3(perm.n) == n)
+    p, c = perm.leaves[0], ch.leaves[0]
+    k, j = z3.Int('k!ls'), z3.Int('j!ls')
+    I.assume(z3.ForAll([k], z3.Implies(z3.And(0 <= k, k < n), z3.And(0 <= z3.Select(p, k), z3.Select(p, k) < n))))
+    I.assume(z3.ForAll([k, j], z3.Implies(z3.And(0 <= k, k < j, j < n), z3.Select(p, k) != z3.Select(p, j))))
+    I.assume(z3.ForAll([k], z3.Implies(z3.And(1 <= k, k < n), _LE(z3.Select(c, z3.Select(p, k - 1)), z3.Select(c, z3.Select(p, k))))))
+    I.trusted.add('lexsort(charges.T): a permutation of the block numbers that orders the rows (np.lexsort)')
+    return perm
+
+
+def _cumsum(I, a, *rest, **kw):
+    I.trusted.add('np.cumsum of a 1-D integer array (recurrence)')
+    r = _SArr.fresh('int', 'cumsum')
+    r.np = True
+    I.assume(to_z3(r.n) == to_z3(a.n))
+    k = z3.Int('k!cs')
+    x, y = r.leaves[0], a.leaves[0]
+    I.assume(z3.Implies(to_z3(a.n) >= 1, z3.Select(x, 0) == z3.Select(y, 0)))
+    I.assume(z3.ForAll([k], z3.Implies(z3.And(1 <= k, k < to_z3(a.n)), z3.Select(x, k) == z3.Select(x, k - 1) + z3.Select(y, k))))
+    return r
+
+
+def _append0(I, first, a, *rest, **kw):
+    I.trusted.add('np.append([0], a) for a 1-D array')
+    if not (isinstance(first, list) and len(first) == 1):
+        from pyvc.interp import Unsupported
+        raise Unsupported('np.append: only np.append([x], array)')
+    k = z3.Int('k!ap')
+    return _SArr(to_z3(a.n) + 1, [z3.Lambda([k], z3.If(k == 0, to_z3(first[0]), z3.Select(a.leaves[0], k - 1)))], 'int', True)
+
+
+def _sort_setup(I, env):
+    _setup(I, env)
+    I.ghost['__env__']['row_le'] = Builtin(lambda I2, x, y: _LE(to_z3(x, U), to_z3(y, U)), 'row_le')
+
+
+
+def _hunt_sort():
+    """witness on real legs: all short charge sequences over two values, both options"""
+    import itertools
+    import numpy as np
+    from tenpy.linalg import charges
+    ci = charges.ChargeInfo([1])
+    for n in (1, 2, 3, 4):
+        for qs in itertools.product([1, 0, 2], repeat=n):
+            sizes = list(range(1, n + 1))
+            slices = np.concatenate([[0], np.cumsum(sizes)])
+            for bunch in (False, True):
+                leg = charges.LegCharge(ci, slices, np.array(qs).reshape(n, 1), -1)
+                before = (leg.slices.copy(), leg.charges.copy())
+                perm, srt = leg.sort(bunch=bunch)
+                flat = leg.to_qflat()
+                pf = leg.perm_flat_from_perm_qind(perm)
+                ok = np.array_equal(srt.to_qflat(), flat[pf]) and srt.ind_len == leg.ind_len and srt.qconj == leg.qconj
+                ok = ok and np.all(np.diff(srt.to_qflat()[:, 0]) >= 0) and srt.sorted
+                ok = ok and (not srt.bunched or all(np.any(srt.charges[k] != srt.charges[k - 1]) for k in range(1, srt.block_number)))
+                ok = ok and (not bunch or srt.bunched) and np.array_equal(before[0], leg.slices) and np.array_equal(before[1], leg.charges)
+                try:
+                    srt.test_sanity()
+                except Exception:
+                    ok = False
+                if not ok:
+                    return {'input': {'charges': list(qs), 'block sizes': sizes, 'bunch': bunch},
+                            'observed': f'sort -> perm {np.asarray(perm).tolist()}, slices {srt.slices.tolist()}, charges {srt.charges.ravel().tolist()}, sorted={srt.sorted} bunched={srt.bunched}'}
+    return None
+
+
+_SORTED_SPEC = lambda o: f'forall(1, {o}.block_number, lambda b: row_le({o}.charges[b - 1], {o}.charges[b]))'
+
+for _bunch in (False, True):
+    Contract(
+        target=f'{CH}::LegCharge.sort', props=['C02', 'C06', 'C03'], name=f'LegCharge.sort[bunch={_bunch}]', setup=_sort_setup, hunt=_hunt_sort,
+        params={'self': _BLEG, 'bunch': Const(_bunch)},
+        hooks=dict(_HOOKS, **{f'{CH}::_find_row_differences': lambda I, f, a, k: _frd(I, *a, **k), 'global:_find_row_differences': _frd,
+                              'global:lexsort': _lexsort, 'import:tenpy.tools.misc.lexsort': _lexsort,
+                              'module:numpy.cumsum': _cumsum, 'module:numpy.append': _append0}),
+        requires=_B_INV + ['implies(self.sorted, ' + _SORTED_SPEC('self') + ')'],
+        ensures=_B_FRAME + [
+            # (result.ind_len == self.ind_len is *not* among the clauses: it is the invariance of a sum under a permutation, an inductive
+            #  fact outside the solver's reach - left to the bounded C06 check, see `unverified`)
+            'result[1].qconj == self.qconj and result[1].chinfo is self.chinfo',
+            'result[1].sorted == True and ' + _SORTED_SPEC('result[1]'),                                   # truthful
+            'implies(old(self.sorted) and (not bunch or old(self.bunched)), result[1] is self)',
+            'implies(not (old(self.sorted) and (not bunch or old(self.bunched))), not (result[1] is self))',
+        ] + ([
+            # without bunching: block k of the result is block perm[k] of self
+            'len(result[0]) == self.block_number and result[1].block_number == self.block_number',
+            'forall(0, self.block_number, lambda k: 0 <= result[0][k] < self.block_number and result[1].charges[k] == self.charges[result[0][k]] and '
+            'result[1].slices[k + 1] - result[1].slices[k] == self.slices[result[0][k] + 1] - self.slices[result[0][k]])',
+            'result[1].slices[0] == 0',
+            'implies(not (result[1] is self), result[1].bunched == False)',
+        ] if not _bunch else [
+            'result[1].bunched == True and forall(1, result[1].block_number, lambda b: result[1].charges[b] != result[1].charges[b - 1])',
+            'len(result[0]) == self.block_number and forall(0, self.block_number, lambda k: 0 <= result[0][k] < self.block_number)',
+        ]),
+    )
